@@ -114,7 +114,9 @@ SLOTS = ["internal", "nterm", "cterm", "unknown", "labile", "interval", "static"
 ISOTOPE_CORPUS = ["13C", "15N", "D", "T", "2H", "18O", "34S", "Foo", "13X", "99C", "C13"]
 ADDUCT_CORPUS = ["+H+", "+2Na+,+H+", "+K+", "-H+", "+Ca2+", "+Cl-", "+e-", "+Foo+", "", "+2Xx+", "+Na+,+Qq+", "1", "2.5"]
 # global rules: with and without a bracketed modification (without one the rule means nothing)
-RULE_CORPUS = ["[Oxidation]@M", "[1]@P,E", "Bogus@P", "@P", "Oxidation@M", "[Oxidation]^2@N-term"]
+RULE_CORPUS = ["[Oxidation]@M", "[1]@P,E", "Bogus@P", "@P", "Oxidation@M", "[Oxidation]^2@N-term",
+               # targets that are not residue letters (and mean something to a regular-expression engine)
+               "[Formula:C]@(", "[Formula:C]@*", "[Oxidation]@+", "[1]@?", "[Formula:C]@.", "[1]@P|E", "[1]@^", "[1]@$", "[1]@\\"]
 
 
 # generated modification values: prefix x 1..3 body pieces (balanced brackets everywhere; stray brackets only in the
@@ -129,6 +131,17 @@ STRAY = ["[", "]", "]C", "[C", "[]"]
 def gen_value(rnd, slot):
     pieces = PIECES + (STRAY if slot == "labile" else ["[]"])
     return rnd.choice(PREFIXES) + "".join(rnd.choice(pieces) for _ in range(rnd.randint(0, 3)))
+
+
+def rule_event(pp, tid, v):
+    text = f"<{v}>PEMPTIDE"
+    o, a = call(pp.parse, text)
+    o2, r2 = call(pp.mass, text)
+    o3, r3 = call(lambda: pp.comp(text, estimate_delta=True))
+    return {"tid": tid, "k": "deferred_rule", "rule": "s:" + v, "text": text, "parse": exc_info(o, a),
+            "mass": exc_info(o2, r2), "comp": exc_info(o3, r3),
+            "massUnchanged": bool(o2 == "ret" and abs(r2 - pp.mass("PEMPTIDE")) < 1e-9),
+            "compUnchanged": bool(o3 == "ret" and r3 == pp.comp("PEMPTIDE", estimate_delta=True))}
 
 
 def deferred_event(pp, tid, value, slot, rnd, strict=True):
@@ -278,13 +291,7 @@ def run(tier, seed, rep):
                     "mass": exc_info(o2, r2), "comp": exc_info(o3, r3)})
         j += 1
     for v in RULE_CORPUS:
-        text = f"<{v}>PEMPTIDE"
-        o, a = call(pp.parse, text)
-        o2, r2 = call(pp.mass, text)
-        o3, r3 = call(lambda: pp.comp(text, estimate_delta=True))
-        evs.append({"tid": f"D{j}", "k": "deferred_rule", "rule": "s:" + v, "text": text, "parse": exc_info(o, a),
-                    "mass": exc_info(o2, r2), "comp": exc_info(o3, r3),
-                    "massUnchanged": bool(o2 == "ret" and abs(r2 - pp.mass("PEMPTIDE")) < 1e-9)})
+        evs.append(rule_event(pp, f"D{j}", v))
         j += 1
     res = core.validate_traces("Trace_Parser", evs, "C09")
     rep.add_trace("parser_totality", evs, res, traces=nstrings + sum(v[0] for v in buckets.values()) + j,
@@ -311,6 +318,8 @@ def replay(path):
                         "count": 1, "witness": [s]})
     elif ev["k"] == "deferred":
         new = [deferred_event(pp, "R.0", ev["v"][2:], ev["slot"], random.Random(0), strict=ev.get("strict", True))]
+    elif ev["k"] == "deferred_rule":
+        new = [rule_event(pp, "R.0", ev["rule"][2:])]
     else:
         new = [ev]
     res = core.validate_traces("Trace_Parser", new, "C09")
